@@ -57,6 +57,9 @@ func runC01(c *Ctx, r *Report, tier string) {
 			case fname == "convert" && recv == "P1", fname == "convertUnmarshal" && recv == "P1":
 				// the conversion target parameter: callers are checked below
 				ok, how = true, "conversion target parameter"
+			case isValueParam(fn, call.Call.Args[0]) && (actsForNamed(c, fn, "convert") || actsForNamed(c, fn, "convertUnmarshal")):
+				// a helper split off the conversion, acting on the target it is handed
+				ok, how = true, "conversion target parameter of a helper of convert"
 			case strings.HasPrefix(recv, "Option.value(P0)") && (fname == "(*Option).empty"):
 				ok, how = true, "the option's own value"
 			case strings.HasPrefix(recv, "call:reflect.Indirect(call:reflect.New("), strings.HasPrefix(recv, "fresh("):
@@ -124,6 +127,19 @@ func runC01(c *Ctx, r *Report, tier string) {
 		for _, in := range c.instrs(ss, c.isCallTo("(*Group).scanStruct")) {
 			if in.Parent() == ss || c.actsFor(in.Parent(), ss) {
 				rec = append(rec, in)
+			}
+		}
+		// the nested scan reached through a new helper (one that several sites share): the call of that helper in
+		// scanStruct's own body is the point after which the count has changed
+		for _, b := range ss.Blocks {
+			for _, in := range b.Instrs {
+				call, ok := in.(*ssa.Call)
+				if !ok {
+					continue
+				}
+				if h := call.Call.StaticCallee(); h != nil && c.isNew(h) && len(c.instrs(h, c.isCallTo("(*Group).scanStruct"))) > 0 {
+					rec = append(rec, in)
+				}
 			}
 		}
 		loads := func(v ssa.Value) []ssa.Instruction {
@@ -385,4 +401,16 @@ func setupFn(c *Ctx, fn *ssa.Function) bool {
 		}
 	}
 	return true
+}
+
+// actsForNamed: fn is the named pinned function or a new helper acting for it.
+func actsForNamed(c *Ctx, fn *ssa.Function, name string) bool {
+	o := c.Fn(name)
+	return o != nil && c.actsFor(fn, o)
+}
+
+// isValueParam: v is (a resolved form of) one of fn's own reflect.Value parameters.
+func isValueParam(fn *ssa.Function, v ssa.Value) bool {
+	p, ok := v.(*ssa.Parameter)
+	return ok && p.Parent() == fn && p.Type().String() == "reflect.Value"
 }
